@@ -20,7 +20,8 @@ BundleValid(e) == (\A i \in DOMAIN e.runs : e.runs[i].ok) /\ Accepted(SigMachine
 
 \* the contract of make_aggsig_final_message: the messages it yields for the AGG_SIG conditions of the
 \* summary are exactly the required messages
-FinalMessagesOk(e) == BundleValid(e) => BagOf(e.final) = BagOf(RequiredPairs(e))
+\* (the harness obtains the summary through run_spendbundle, which also requires the declared puzzle hashes to match)
+FinalMessagesOk(e) == (BundleValid(e) /\ HashesMatch(e)) => BagOf(e.final) = BagOf(RequiredPairs(e))
 
 (* ---- single-point tamperings of a required list (used by MC_AggSig) ---- *)
 DropAt(q, i) == [j \in 1..(Len(q) - 1) |-> IF j < i THEN q[j] ELSE q[j + 1]]
